@@ -470,7 +470,7 @@ main(int argc, char *argv[])
 			arrayaddptr(&stages[LINK].cmd, "-l");
 			arrayaddptr(&stages[LINK].cmd, "pthread");
 		} else {
-			if (arg[2] != '\0' && strchr("cESsv", arg[1]))
+			if (arg[2] != '\0' && strchr("cEPSsv", arg[1]))
 				usage(NULL);
 			switch (arg[1]) {
 			case 'c':
